@@ -700,3 +700,65 @@ class SurveyPairMetadataDeleted(Contract):
 
 
 CONTRACTS = CONTRACTS + [SurveyPairMetadataDeleted]
+
+
+class EmptyConcatContainerDeleted(Contract):
+    """A drillhole group whose holes carry no data yet stores an empty 'Data' container next to its
+    tables: without it (an empty child container is an optional item) the file opens and every hole
+    comes back with its collar and its survey."""
+    target = "geoh5py/io/h5_reader.py::H5Reader.fetch_concatenated_values"
+    variant = "empty-data-container-deleted"
+    symbolic = False
+    has_native = True
+    props = ("C19",)
+    bounded_scope = "a drillhole group with 1-3 holes (3-station surveys) and no data, format versions 2.0 / 2.1; the empty 'Concatenated Data/Data' container deleted with h5py; collars and surveys of every hole compared (exhaustive)"
+
+    def native_cases(self, tier, rng):
+        for n in (1, 2, 3):
+            for version in (2.0, 2.1):
+                yield {"holes": n, "version": version}
+
+    def native_check(self, case):
+        import h5py
+
+        from geoh5py.groups import DrillholeGroup
+        from geoh5py.objects import Drillhole
+        from geoh5py.workspace import Workspace
+
+        d = tempfile.mkdtemp()
+        try:
+            path = os.path.join(d, "e.geoh5")
+            with Workspace.create(path, version=case["version"]) as ws:
+                dg = DrillholeGroup.create(ws, name="dg")
+                for k in range(case["holes"]):
+                    Drillhole.create(ws, parent=dg, name=f"h{k}", collar=[float(k), 1.0, 2.0], surveys=np.c_[np.r_[0.0, 50.0, 100.0], np.r_[0.0, 10.0 + k, 20.0], -80.0 * np.ones(3)])
+
+            def look():
+                with Workspace(path, mode="r") as ws:
+                    return {h.name: ([float(h.collar[c]) for c in ("x", "y", "z")], np.asarray(h.surveys.tolist() if hasattr(h.surveys, "tolist") else h.surveys, dtype=float).round(4).tolist()) for h in ws.get_entity("dg")[0].children}
+
+            ref = look()
+            removed = 0
+            with h5py.File(path, "r+") as f:
+                proj = f[list(f)[0]]
+                for key in proj["Groups"]:
+                    node = proj["Groups"][key]
+                    if "Concatenated Data" in node and "Data" in node["Concatenated Data"] and len(node["Concatenated Data"]["Data"]) == 0:
+                        del node["Concatenated Data"]["Data"]
+                        removed += 1
+            if removed != 1:
+                return None  # the writer keeps no empty container here: nothing to delete
+            try:
+                got = look()
+            except Exception as exc:
+                return f"the file no longer opens after the empty 'Data' container of its drillhole group was deleted: {type(exc).__name__}: {exc} ({case})"
+            if got != ref:
+                bad = sorted(k for k in ref if got.get(k) != ref[k])
+                return f"deleting the empty 'Data' container of a drillhole group altered the holes {bad}: {got.get(bad[0])} instead of {ref[bad[0]]} ({case})"
+            return None
+        finally:
+            gc.collect()
+            shutil.rmtree(d, ignore_errors=True)
+
+
+CONTRACTS = CONTRACTS + [EmptyConcatContainerDeleted]
